@@ -7,8 +7,10 @@
 (* The file is modelled as the sequence of rows it holds: "H" (a header    *)
 (* row) or <<d, i>> (tract i of description d).  Operations:               *)
 (*   Csv(mode, d)     tracts_to_csv of description d                        *)
-(*   WInit(mode)      construct a TractWriter (decides about the header)   *)
-(*   WWrite(d)        TractWriter.write(description d | None)              *)
+(*   WInit(mode, uid, plus)  construct a TractWriter (decides about the    *)
+(*                    header; uid counter; additional columns or not)      *)
+(*   WWrite(d, p)     TractWriter.write(description d | None, plus_cols =  *)
+(*                    value set p | not given)                             *)
 (*   WClose, WOpen    close / re-open (append)                             *)
 (* A history of operations determines the rows of the file and what each   *)
 (* call returns or raises.                                                 *)
@@ -22,13 +24,17 @@ NTracts(d) == IF d = 1 THEN 3 ELSE 1          \* description 1 has three tracts,
 H == <<0, 0>>
 Rows(d) == [i \in 1..NTracts(d) |-> <<d, i>>]
 Modes == {"w", "a"}
-Op(name, mode, d) == [name |-> name, mode |-> mode, d |-> d]
+Op(name, mode, d, p) == [name |-> name, mode |-> mode, d |-> d, p |-> p]
+PlusTags == {0, 1, 2}                          \* 0: no additional cells; 1, 2: the two value sets a caller passes
 
 VARIABLES exists, rows, writer, ret, hist,
           uid,      \* the writer's UID counter (-1: no UIDs requested)
-          uids      \* per row of the file: <<number, index, total>> of its UID, <<0, 0, 0>> for rows without one
+          uids,     \* per row of the file: <<number, index, total>> of its UID, <<0, 0, 0>> for rows without one
+          ptags     \* per row of the file: which additional cells it carries (0 none; a header row: 0 / 9 = plus headers)
 \* writer: "none" | "open" | "closed"
-vars == <<exists, rows, writer, ret, hist, uid, uids>>
+vars == <<exists, rows, writer, ret, hist, uid, uids, ptags>>
+PH == 9                                        \* tag of a header row that names the additional columns
+Zeros(n) == [i \in 1..n |-> 0]
 NoUid == <<0, 0, 0>>
 \* UIDs of the rows one write() call adds: '0027.a-d' = <<27, 1, 4>>, '0027.b-d' = <<27, 2, 4>>, ...
 UidRows(u, d) == [i \in 1..NTracts(d) |-> IF u < 0 THEN NoUid ELSE <<u, i, NTracts(d)>>]
@@ -37,7 +43,8 @@ Init == /\ exists \in BOOLEAN
         /\ rows = IF exists THEN <<H, <<2, 1>>>> ELSE <<>>
         /\ writer = "none" /\ ret = [kind |-> "none", n |-> 0] /\ uid = -1
         /\ uids = IF exists THEN Blank(2) ELSE <<>>
-        /\ hist = <<Op("start", IF exists THEN "exists" ELSE "absent", 0)>>
+        /\ ptags = IF exists THEN Zeros(2) ELSE <<>>
+        /\ hist = <<Op("start", IF exists THEN "exists" ELSE "absent", 0, 0)>>
 Step(op) == Len(hist) <= MaxOps /\ hist' = Append(hist, op)
 None == [kind |-> "none", n |-> 0]
 
@@ -47,27 +54,32 @@ Csv == \E m \in Modes : \E d \in Descs :
                      ELSE IF exists /\ Fault # "append_always_header" THEN rows \o Rows(d)
                      ELSE rows \o <<H>> \o Rows(d))
          /\ uids' = (IF m = "w" THEN Blank(Len(rows')) ELSE uids \o Blank(Len(rows') - Len(rows)))
-         /\ exists' = TRUE /\ ret' = None /\ Step(Op("csv", m, d)) /\ UNCHANGED <<writer, uid>>
-WInit == \E m \in Modes : \E u \in {-1, 27} :
+         /\ ptags' = (IF m = "w" THEN Zeros(Len(rows')) ELSE ptags \o Zeros(Len(rows') - Len(rows)))
+         /\ exists' = TRUE /\ ret' = None /\ Step(Op("csv", m, d, 0)) /\ UNCHANGED <<writer, uid>>
+WInit == \E m \in Modes : \E u \in {-1, 27} : \E pl \in {0, 1} :       \* pl = 1: plus_cols=[two headers]
            /\ writer = "none"
            /\ rows' = (IF m = "w" THEN <<H>>
                        ELSE IF exists /\ Fault # "header_after_open" THEN rows
                        ELSE IF exists THEN rows       \* (fault: decision taken after the file was created)
                        ELSE IF Fault = "header_after_open" THEN <<>> ELSE <<H>>)
            /\ uids' = (IF m = "w" \/ ~exists THEN Blank(Len(rows')) ELSE uids)
+           /\ ptags' = (IF m = "w" \/ ~exists THEN [i \in 1..Len(rows') |-> IF pl = 1 THEN PH ELSE 0] ELSE ptags)
            /\ uid' = u
-           /\ exists' = TRUE /\ writer' = "open" /\ ret' = None /\ Step(Op("winit", m, IF u < 0 THEN 0 ELSE u))
-WWrite == \E d \in Descs \cup {0} :          \* 0 = None
+           /\ exists' = TRUE /\ writer' = "open" /\ ret' = None /\ Step(Op("winit", m, IF u < 0 THEN 0 ELSE u, pl))
+WWrite == \E d \in Descs \cup {0} : \E pt \in PlusTags :         \* d = 0: None
             /\ writer \in {"open", "closed"}
             /\ IF writer = "closed"
-               THEN /\ ret' = [kind |-> "RuntimeError", n |-> 0] /\ UNCHANGED <<rows, uid, uids>>
+               THEN /\ ret' = [kind |-> "RuntimeError", n |-> 0] /\ UNCHANGED <<rows, uid, uids, ptags>>
                ELSE /\ rows' = IF d = 0 THEN rows ELSE rows \o Rows(d)
                     /\ uids' = IF d = 0 THEN uids ELSE uids \o UidRows(uid, d)
+                    \* the same additional cells on every row of the call (Fault: only on its first row)
+                    /\ ptags' = IF d = 0 THEN ptags
+                                ELSE ptags \o [i \in 1..NTracts(d) |-> IF Fault = "plus_first_row_only" /\ i > 1 THEN 0 ELSE pt]
                     /\ uid' = IF uid < 0 THEN uid ELSE IF Fault = "uid_not_advanced" THEN uid ELSE uid + 1
                     /\ ret' = [kind |-> "count", n |-> IF d = 0 THEN 0 ELSE NTracts(d)]
-            /\ Step(Op("wwrite", "-", d)) /\ UNCHANGED <<exists, writer>>
-WClose == writer = "open" /\ writer' = "closed" /\ ret' = None /\ Step(Op("wclose", "-", 0)) /\ UNCHANGED <<exists, rows, uid, uids>>
-WOpen == writer = "closed" /\ writer' = "open" /\ ret' = None /\ Step(Op("wopen", "-", 0)) /\ UNCHANGED <<exists, rows, uid, uids>>
+            /\ Step(Op("wwrite", "-", d, pt)) /\ UNCHANGED <<exists, writer>>
+WClose == writer = "open" /\ writer' = "closed" /\ ret' = None /\ Step(Op("wclose", "-", 0, 0)) /\ UNCHANGED <<exists, rows, uid, uids, ptags>>
+WOpen == writer = "closed" /\ writer' = "open" /\ ret' = None /\ Step(Op("wopen", "-", 0, 0)) /\ UNCHANGED <<exists, rows, uid, uids, ptags>>
 Next == Csv \/ WInit \/ WWrite \/ WClose \/ WOpen
 Spec == Init /\ [][Next]_vars
 
@@ -92,6 +104,13 @@ UidsParallel == Len(uids) = Len(rows)
 UidNumbersDistinctPerCall ==
   \A a, b \in 1..Len(uids) : (a < b /\ uids[a] # NoUid /\ uids[b] # NoUid /\ uids[a][1] = uids[b][1])
                                => (uids[a][3] = uids[b][3] /\ uids[a][2] < uids[b][2])
+
+\* additional cells: one tag per row, and all rows of one write() call carry the cells that call was given
+PtagsParallel == Len(ptags) = Len(rows)
+LastCallPlus ==
+  LET op == hist[Len(hist)] IN
+  (Len(hist) > 1 /\ op.name = "wwrite" /\ op.d # 0 /\ ret.kind # "RuntimeError") =>
+     \A i \in (Len(rows) - NTracts(op.d) + 1)..Len(rows) : ptags[i] = op.p
 
 EmitCase == (EmitCases /\ Len(hist) = MaxOps + 1) => PrintT(<<"CASE", ToJson([ops |-> hist])>>)
 =============================================================================
